@@ -62,6 +62,22 @@ def run(ctx):
         d = pc.diff(pc.expected_readback(case), pc.canon_pose(got))
         if d:
             ctx.violation("reference-encoded file is read to different content", slim, {"first_difference": d}, True, size=size)
+        # … and once more after the pose just returned was edited in place (dimensions, a point name): the file still reads to the content it encodes
+        if rng.random() < 0.3:
+            try:
+                got.header.dimensions.width = (got.header.dimensions.width + 5) % 65536
+                for comp in got.header.components:
+                    if comp.points:
+                        comp.points[0] = comp.points[0] + "_edited"; break
+                again = Pose.read(ref)
+                d2 = pc.diff(pc.expected_readback(case), pc.canon_pose(again))
+                if d2:
+                    ctx.violation("reference-encoded file is read to different content", slim, {"first_difference": d2, "after": "an in-place edit of the header of the pose read from the same file"}, True, size=size)
+                ctx.count("reader direction after editing the previous result")
+                got = again
+            except Exception as e:
+                ctx.violation("reference-encoded file is not read", slim, {"error": type(e).__name__, "after": "an in-place edit of the previous result"}, True, size=size)
+                continue
         if not mr["ok"] or pc.diff(mr["pose"], pc.canon_pose(got)):
             ctx.violation("reader: implementation and model differ on a reference-encoded file", slim, {"d": pc.diff(mr.get("pose"), pc.canon_pose(got))}, False, size=size)
         buf = io.BytesIO()
